@@ -130,6 +130,31 @@ func noteChan() {
 	}
 }
 
+// closedNow reports whether ch is closed. The virtual closed flag only lives for
+// one run, but a channel kept in library state outlives it (a "ready" channel
+// closed in one run and waited on in the next), so the real channel is closed
+// too and asked when the flag is not set. Asking is a non-blocking receive on
+// an empty channel: no real sender exists on a virtualised channel, so it
+// either reports the close or does nothing.
+func closedNow[T any](c *vchan, ch <-chan T) bool {
+	if c.isClosed() {
+		return true
+	}
+	if len(ch) > 0 {
+		return false
+	}
+	select {
+	case _, ok := <-ch:
+		if ok {
+			abort("harness-limit", "a value arrived on a virtualised channel from outside the simulation")
+		}
+		c.setClosed()
+		return true
+	default:
+		return false
+	}
+}
+
 // Send replaces `ch <- v`.
 func Send[T any](ch chan<- T, v T) {
 	if !Active() {
@@ -156,8 +181,10 @@ func Send[T any](ch chan<- T, v T) {
 	if c.isClosed() {
 		panic("send on closed channel")
 	}
-	RaceRelease(key)
 	it := c.push(v)
+	// sender -> receiver edge on an address of this item alone: a release on the
+	// channel's own address would be overwritten by the next pending sender
+	RaceRelease(unsafe.Pointer(&it.taken))
 	Wake(key)
 	Wake(unsafe.Pointer(&selectAddr))
 	for !it.isTaken() {
@@ -183,7 +210,7 @@ func recv[T any](ch <-chan T) (T, bool) {
 	key := *(*unsafe.Pointer)(unsafe.Pointer(&ch))
 	c := vchanOf(key)
 	if cap(ch) > 0 {
-		for len(ch) == 0 && !c.isClosed() {
+		for len(ch) == 0 && !closedNow(c, ch) {
 			Block(key)
 		}
 		v, ok := <-ch // cannot block: data is buffered, or the channel is closed
@@ -193,13 +220,13 @@ func recv[T any](ch <-chan T) (T, bool) {
 	}
 	for {
 		if it, ok := c.pop(); ok {
-			RaceAcquire(key)
+			RaceAcquire(unsafe.Pointer(&it.taken))
 			v, _ := it.value().(T)
 			RaceRelease(unsafe.Pointer(it))
 			Wake(unsafe.Pointer(it))
 			return v, true
 		}
-		if c.isClosed() {
+		if closedNow(c, ch) {
 			RaceAcquire(key)
 			var zero T
 			return zero, false
@@ -240,9 +267,9 @@ func Close[T any](ch chan<- T) {
 		RaceRelease(key)
 	}
 	c.setClosed()
-	if cap(ch) > 0 {
-		close(ch)
-	}
+	// the real channel is closed as well (for an unbuffered one nothing else
+	// ever touches it): the close then survives the run
+	close(ch)
 	Wake(key)
 	Wake(unsafe.Pointer(&selectAddr))
 	// senders parked on their own item must notice the close
@@ -306,6 +333,7 @@ type SelCase struct {
 	ch   any
 	rv   reflect.Value
 	val  any
+	shut func(*vchan) bool // receive cases: closed, by flag or for real
 }
 
 // Sel is the outcome of SelectReady.
@@ -318,7 +346,8 @@ type Sel struct {
 }
 
 func CanRecv[T any](ch <-chan T) SelCase {
-	return SelCase{key: *(*unsafe.Pointer)(unsafe.Pointer(&ch)), cap: cap(ch), len: func() int { return len(ch) }, ch: ch, rv: reflect.ValueOf(ch)}
+	return SelCase{key: *(*unsafe.Pointer)(unsafe.Pointer(&ch)), cap: cap(ch), len: func() int { return len(ch) }, ch: ch, rv: reflect.ValueOf(ch),
+		shut: func(c *vchan) bool { return closedNow(c, ch) }}
 }
 
 func CanSend[T any](ch chan<- T, v T) SelCase {
@@ -350,13 +379,13 @@ func caseReady(sc *SelCase) bool {
 		if sc.send {
 			return sc.len() < sc.cap || c.isClosed()
 		}
-		return sc.len() > 0 || c.isClosed()
+		return sc.len() > 0 || sc.shut(c)
 	}
 	if sc.send {
 		// a receiver is waiting that no pending sender has already claimed
 		return c.waitingRecvs() > c.pending() || c.isClosed()
 	}
-	return c.pending() > 0 || c.isClosed()
+	return c.pending() > 0 || sc.shut(c)
 }
 
 //go:norace
@@ -454,6 +483,7 @@ func fireTimerFor(key unsafe.Pointer) bool {
 			}
 			stats.TimersFired++
 			stats.ClockJumps++
+			RaceAcquire(unsafe.Pointer(&vtimers[i]))
 			t.fire()
 			return true
 		}
@@ -519,6 +549,9 @@ func addTimer(at int64, key unsafe.Pointer, fire func()) bool {
 		if !vtimers[i].used {
 			vtimers[i] = vtimer{at: at, fire: fire, used: true, key: key}
 			nvtimers++
+			// arming happens-before firing, as with the runtime's timers (the
+			// closure's captured variables are written here and read there)
+			RaceRelease(unsafe.Pointer(&vtimers[i]))
 			return true
 		}
 	}
@@ -546,6 +579,7 @@ func fireEarliestTimer() bool {
 		simNow = t.at
 	}
 	stats.TimersFired++
+	RaceAcquire(unsafe.Pointer(&vtimers[best]))
 	t.fire()
 	return true
 }
